@@ -11,6 +11,8 @@
 #include "dump.hpp"
 #include <cstring>
 #define ENTRY extern "C" __attribute__((noinline))
+static int g_read_meta = 1;
+ENTRY void verif_set_read_meta(int v) { g_read_meta = v; }      // read_meta::yes (default) or ::no for the parsers driven below
 using namespace osmium::io::detail;
 
 // ---------------------------------------------------------------- environment
@@ -65,7 +67,7 @@ struct NativeEnv {
     future_buffer_queue_type outq{0, "out"};
     std::promise<osmium::io::Header> header_promise;
     std::atomic<std::size_t> offset{0};
-    parser_arguments args{pool, -1, inq, outq, header_promise, &offset, osmium::osm_entity_bits::all, osmium::io::read_meta::yes, osmium::io::buffers_type::any, false};
+    parser_arguments args{pool, -1, inq, outq, header_promise, &offset, osmium::osm_entity_bits::all, g_read_meta ? osmium::io::read_meta::yes : osmium::io::read_meta::no, osmium::io::buffers_type::any, false};
     NativeEnv() {
         for (;;) { std::string c = next_chunk(); if (c.empty()) break; add_to_queue(inq, std::move(c)); }
         add_end_of_data_to_queue(inq);
@@ -124,7 +126,7 @@ ENTRY int verif_o5m_run(const char* data, unsigned len, const unsigned* cuts, un
     new (&p->m_buffer) osmium::memory::Buffer{1024, osmium::memory::Buffer::auto_grow::internal};
     p->m_buffers_kind = osmium::io::buffers_type::any;
     p->m_read_which_entities = osmium::osm_entity_bits::all;
-    p->m_read_metadata = osmium::io::read_meta::yes;
+    p->m_read_metadata = g_read_meta ? osmium::io::read_meta::yes : osmium::io::read_meta::no;
     p->m_header_is_done = true;                 // the header promise is outside the unit
     p->m_data = p->m_input.data(); p->m_end = p->m_data;
 #endif
@@ -187,7 +189,7 @@ ENTRY int verif_opl_run(const char* data, unsigned len, const unsigned* cuts, un
     p->m_buffers_kind = single ? osmium::io::buffers_type::single : osmium::io::buffers_type::any;
     p->m_last_type = osmium::item_type::undefined;
     p->m_read_which_entities = static_cast<osmium::osm_entity_bits::type>(mask);
-    p->m_read_metadata = osmium::io::read_meta::yes;
+    p->m_read_metadata = g_read_meta ? osmium::io::read_meta::yes : osmium::io::read_meta::no;
     p->m_header_is_done = true;
     p->m_line_count = 0;
 #endif
